@@ -34,6 +34,7 @@ type SeqScenario struct {
 	GapMs  int64            `json:"gap_ms"` // STATETTL scenarios: real-time pause before every row
 	TTLMs  int64            `json:"ttl_ms"` // STATETTL of the query: the trace is voided when the driver itself let a group idle too long
 	Span   int              `json:"span"`   // rows of one group are at most this many positions apart
+	Reuse  bool             `json:"reuse"`   // the producer re-uses ONE map object for all its rows (cleared and refilled before each call)
 	Conc   bool             `json:"conc"`   // JOIN scenarios: table updates run in a goroutine of their own, concurrently with EmitSync callers
 	Seed   int64            `json:"seed"`
 }
@@ -234,10 +235,23 @@ func RunSeq(sc SeqScenario) (evs []Ev, inconclusive string) {
 	}
 	var handed []held
 	var emitTimes []time.Time
+	var reused map[string]any
 	for i, op := range ops {
 		switch op.Op {
 		case "emit", "sync":
 			row := decodeRow(op.Row)
+			if sc.Reuse {
+				if reused == nil {
+					reused = map[string]any{}
+				}
+				for k := range reused {
+					delete(reused, k)
+				}
+				for k, v := range row {
+					reused[k] = v
+				}
+				row = reused
+			}
 			snap, _ := DeepCopy(row).(map[string]any)
 			handed = append(handed, held{row, snap, i + 1})
 			in.Log(Ev{"tr": sc.Tr, "e": "in", "i": i + 1, "op": op.Op, "row": AbsRow(row)})
@@ -332,6 +346,9 @@ func RunSeq(sc SeqScenario) (evs []Ev, inconclusive string) {
 	}
 	// C20: caller maps untouched; delivered rows not altered afterwards
 	for _, h := range handed {
+		if sc.Reuse {
+			break // the producer itself rewrites its one map
+		}
 		a, r, c := DiffKeys(h.snap, h.orig)
 		if len(a)+len(r)+len(c) > 0 {
 			in.Log(Ev{"tr": sc.Tr, "e": "callermut", "i": h.i, "added": a, "removed": r, "changed": c})
